@@ -26,7 +26,7 @@ structure Tok where
   ok : Bool
 deriving Repr, DecidableEq
 
-def P : Params Tok := ⟨fun t => t.ok, ⟨0, true⟩⟩
+def P : Params Tok := ⟨fun t => t.ok, fun _ => ⟨0, true⟩⟩
 
 def parseTok (s : String) : Option Tok :=
   if s.endsWith "!" then do some ⟨← natOf (s.dropEnd 1).toString, false⟩
